@@ -1,14 +1,193 @@
 /-
-  Driver handlers for the Cli model. `handle op args` returns `none` when the
-  operation is not one of this file's.
+  Driver handlers for the Cli model.
+
+    clean <hex path>                         → `path <hex of filepath.Clean>`
+    abs <hex cwd> <hex path>                 → `path <hex of filepath.Abs with that working directory>`
+    cli <flags> <out> <recs> <recfiles> <ids> <pos> <world> <oracle> <sum>
+    keygen <flags> <out> <pos> <world> <koracle> <sum>
+
+  Every field is free of spaces. Bytes and paths are lowercase hex, `-` the
+  empty string. A list is `.` when empty, else `,`-separated elements.
+
+    flags     letters out of n(o arguments) v(ersion) d e a p   (keygen: v y), `-` for none
+    recs      <hex>:<ok>            -r values with the oracle's verdict (0/1)
+    recfiles  <hex>:<ok>            -R values
+    ids       <i|j>:<hex>:<ok>      -i / -j values in command line order
+    pos       <hex>                 positional arguments
+    world     `;`-separated key=value:
+                cwd=<hex abs path> fsize=<n|-> umask=<n> tin=<0|1> close=<0|1>
+                out=<t | f | u | l<n>>      terminal, /dev/full, unlimited, accepts n bytes
+                nodes=<list of <hex abs path>:<a | d | F | f:<mode>:<hex content>>>
+    oracle    `;`-separated: pass=<0|1> wrap=<0|1> dec=<r | k:<hex pt>:<n|->> ct=<len> fl=<len> ver=<hex>
+              (the ciphertext is randomised: it is given by its length and stands for that many zero bytes)
+    koracle   key=<len> conv=<n | list of hex lines> ver=<hex>
+    sum       `hash` (contents as Wire.sum) or `len` (contents as #<length>)
+
+  reply:  exit=<0|1> out=<none | unchanged | absent | dir | full | file:<mode>:<sum>> stdout=<sum> rest=<same|changed>
+    `out` is the state of the path named by -o (resolved lexically) — `unchanged`
+    when its node equals the initial one; `rest` says whether every other listed
+    node is unchanged.
 -/
 import AgeModel.Wire
+import AgeModel.Cli
 namespace AgeModel
 namespace Exec
 namespace Cli
+open AgeModel.Cli Wire
+
+def parseList {α} (s : String) (f : String → Option α) : Option (List α) :=
+  if s = "." then some [] else (splitOn s ',').mapM f
+
+def kvs (s : String) : List (String × String) :=
+  (splitOn s ';').filterMap fun kv =>
+    match splitOn kv '=' with
+    | [k, v] => some (k, v)
+    | _ => none
+
+def field (m : List (String × String)) (k : String) : Option String := m.lookup k
+
+def optNat? (s : String) : Option (Option Nat) := if s = "-" then some none else (nat? s).map some
+
+def toPath (p : Bytes) : Path := absPath [] p
+
+def parseNode (s : String) : Option (Path × Node) :=
+  match splitOn s ':' with
+  | [p, "a"] => (unhex p).map fun p => (toPath p, .absent)
+  | [p, "d"] => (unhex p).map fun p => (toPath p, .dir)
+  | [p, "F"] => (unhex p).map fun p => (toPath p, .devFull)
+  | [p, "f", m, c] =>
+    match unhex p, nat? m, unhex c with
+    | some p, some m, some c => some (toPath p, .file c m)
+    | _, _, _ => none
+  | _ => none
+
+def parseStdout (s : String) : Option Stdout :=
+  if s = "t" then some .terminal
+  else if s = "f" then some .devFull
+  else if s = "u" then some (.limited none)
+  else if s.startsWith "l" then (nat? (s.drop 1).toString).map fun n => .limited (some n)
+  else none
+
+def parseWorld (s : String) : Option World := do
+  let m := kvs s
+  let cwd ← (field m "cwd").bind unhex
+  let fsize ← (field m "fsize").bind optNat?
+  let umask ← (field m "umask").bind nat?
+  let tin ← (field m "tin").bind bool?
+  let cl ← (field m "close").bind bool?
+  let out ← (field m "out").bind parseStdout
+  let nodes ← (field m "nodes").bind (parseList · parseNode)
+  pure { cwd := toPath cwd, nodes := nodes, fsize := fsize, umask := umask, stdinTerminal := tin,
+         stdout := out, closeFails := cl }
+
+def parseFlagged (s : String) : Option (Bytes × Bool) :=
+  match splitOn s ':' with
+  | [h, ok] => do pure ((← unhex h), (← bool? ok))
+  | _ => none
+
+def parseId (s : String) : Option ((IdKind × Bytes) × Bool) :=
+  match splitOn s ':' with
+  | [k, h, ok] => do
+    let kind ← if k = "i" then some IdKind.i else if k = "j" then some IdKind.j else none
+    pure ((kind, (← unhex h)), (← bool? ok))
+  | _ => none
+
+def parseDec (s : String) : Option DecOutcome :=
+  match splitOn s ':' with
+  | ["r"] => some .headerRefused
+  | ["k", pt, n] => do pure (.ok (← unhex pt) (← optNat? n))
+  | _ => none
+
+def verdict (tbl : List (Bytes × Bool)) (x : Bytes) : Bool :=
+  match tbl.lookup x with
+  | some b => b
+  | none => false
+
+def flagSet (s : String) (allowed : List Char) : Option (Char → Bool) :=
+  if s = "-" then some fun _ => false
+  else if s.toList.all (allowed.contains ·) then some fun c => s.toList.contains c
+  else none
+
+inductive SumMode | hash | len
+
+def parseSum (s : String) : Option SumMode :=
+  if s = "hash" then some .hash else if s = "len" then some .len else none
+
+def summ (m : SumMode) (b : Bytes) : String :=
+  match m with
+  | .hash => sum b
+  | .len => s!"#{b.length}"
+
+def octal (n : Nat) : String := String.ofList (Nat.toDigits 8 n)
+
+def nodeStr (m : SumMode) : Node → String
+  | .absent => "absent"
+  | .dir => "dir"
+  | .devFull => "full"
+  | .file c mode => s!"file:{octal mode}:{summ m c}"
+
+/-- the reply line -/
+def report (m : SumMode) (w : World) (outName : Bytes) (r : Result) : String :=
+  let target : Option Path := if outName = [] then none else some (absPath w.cwd outName)
+  let outS := match target with
+    | none => "none"
+    | some t => if r.world.get t = w.get t then "unchanged" else nodeStr m (r.world.get t)
+  let rest := w.nodes.all fun (k, _) => some k = target || r.world.get k = w.get k
+  s!"exit={if r.exit = 0 then 0 else 1} out={outS} stdout={summ m r.stdout} rest={if rest then "same" else "changed"}"
+
+def cli (args : List String) : String :=
+  match args with
+  | [flags, out, recs, recfiles, ids, pos, world, oracle, sm] =>
+    match flagSet flags ['n', 'v', 'd', 'e', 'a', 'p'], unhex out, parseList recs parseFlagged,
+          parseList recfiles parseFlagged, parseList ids parseId, parseList pos unhex,
+          parseWorld world, parseSum sm with
+    | some fl, some out, some recs, some recfiles, some ids, some pos, some w, some sm =>
+      let om := kvs oracle
+      match (field om "pass").bind bool?, (field om "wrap").bind bool?, (field om "dec").bind parseDec,
+            (field om "ct").bind nat?, (field om "fl").bind nat?, (field om "ver").bind unhex with
+      | some pass, some wrap, some dec, some ct, some fl', some ver =>
+        let a : Args := {
+          noArgs := fl 'n', version := fl 'v', decrypt := fl 'd', encrypt := fl 'e', armor := fl 'a',
+          passphrase := fl 'p', output := out, recipients := recs.map (·.1),
+          recipientsFiles := recfiles.map (·.1), identities := ids.map (·.1), positional := pos }
+        let idI := ids.filterMap fun ((k, n), ok) => if k = .i then some (n, ok) else none
+        let idJ := ids.filterMap fun ((k, n), ok) => if k = .j then some (n, ok) else none
+        let o : Oracle := {
+          recipientOK := verdict recs, recipientsFileOK := verdict recfiles,
+          identityFileOK := verdict idI, pluginOK := verdict idJ, passphraseOK := pass, wrapOK := wrap,
+          dec := dec, ct := List.replicate ct 0, flushed := List.replicate fl' 0, versionLine := ver }
+        report sm w (if isFileName out then out else []) (run a w o)
+      | _, _, _, _, _, _ => "bad-oracle"
+    | _, _, _, _, _, _, _, _ => "bad-args"
+  | _ => "bad-arity"
+
+def parseConv (s : String) : Option (Option (List Bytes)) :=
+  if s = "n" then some none else (parseList s unhex).map some
+
+def keygen (args : List String) : String :=
+  match args with
+  | [flags, out, pos, world, oracle, sm] =>
+    match flagSet flags ['v', 'y'], unhex out, parseList pos unhex, parseWorld world, parseSum sm with
+    | some fl, some out, some pos, some w, some sm =>
+      let om := kvs oracle
+      match (field om "key").bind nat?, (field om "conv").bind parseConv, (field om "ver").bind unhex with
+      | some key, some conv, some ver =>
+        let a : KArgs := { version := fl 'v', convert := fl 'y', output := out, positional := pos }
+        let o : KOracle := { keyFile := List.replicate key 0, converted := conv, versionLine := ver }
+        report sm w out (krun a w o)
+      | _, _, _ => "bad-oracle"
+    | _, _, _, _, _ => "bad-args"
+  | _ => "bad-arity"
 
 def handle (op : String) (args : List String) : Option String :=
   match op, args with
+  | "clean", [p] => some ((unhex p).elim "bad-args" fun p => "path " ++ hexOrDash (clean p))
+  | "abs", [cwd, p] =>
+    some (match unhex cwd, unhex p with
+      | some cwd, some p => "path " ++ hexOrDash (render (absPath (toPath cwd) p))
+      | _, _ => "bad-args")
+  | "cli", _ => some (cli args)
+  | "keygen", _ => some (keygen args)
   | _, _ => none
 
 end Cli
